@@ -1080,6 +1080,14 @@ class Interp:
             return VStr("")
         return VStr(parts[0] if len(parts) == 1 else z3.Concat(*parts), "str")
 
+    def e_Yield(self, e, fr):
+        # generators are outside the subset; a property module may give `yield` a meaning
+        # (e.g. the inlineCallbacks protocol) through reg.ext_models["yield"]
+        h = self.reg.ext_models.get("yield")
+        if h is None:
+            raise OutOfSubset(f"expression Yield at line {getattr(e, 'lineno', '?')}")
+        return h(self, self.eval(e.value, fr) if e.value is not None else NONE, fr)
+
     def e_Lambda(self, e, fr):
         fd = source.FuncDef(fr.module, "<lambda>", e, None, ast.unparse(e))
         return VFunc(fd, None, fr, "<lambda>")
@@ -1573,6 +1581,14 @@ class Interp:
         it = self.iterable_of(it)
         if isinstance(it, VDict):
             it = VList([self.const(k) for k in it.d])
+        if not isinstance(it, (VList, VTuple)):
+            # property modules may model a comprehension over a symbolic collection (e.g. one boundary
+            # call per element); the hook returns None when the shape is not the one it models
+            h = self.reg.ext_models.get("comprehension")
+            if h is not None:
+                r = h(self, e, g, it, fr)
+                if r is not None:
+                    return r
         if isinstance(it, VSeq):
             return self.comp_map(e, g, it, fr)
         if not isinstance(it, (VList, VTuple)):
@@ -1781,6 +1797,10 @@ class Interp:
             raise OutOfSubset(f"call of opaque {f.name}")
         if f is NONE:
             self.raise_("TypeError", VStr("'NoneType' object is not callable"))
+        if isinstance(f, VObj):
+            m = self.find_method(f.cls, "__call__")
+            if m is not None:
+                return self.call_func(VFunc(m, f, None, "__call__"), args, kwargs, fr)
         raise OutOfSubset(f"call of {f!r}")
 
     def bind_args(self, fnode, args, kwargs, fr_new, def_frame):
